@@ -19,6 +19,7 @@ import (
 	"time"
 
 	gnet "github.com/panjf2000/gnet/v2"
+	"github.com/panjf2000/gnet/v2/pkg/pool/byteslice"
 
 	"gnetverif/harness/util"
 )
@@ -72,6 +73,23 @@ func (h *chandler) OnClose(c gnet.Conn, err error) gnet.Action {
 }
 
 func (h *chandler) OnTick() (time.Duration, gnet.Action) { return 5 * time.Millisecond, gnet.None }
+
+// linkLocal: an IPv6 link-local address of this host with its zone, if there is one
+func linkLocal() (string, bool) {
+	ifs, _ := net.Interfaces()
+	for _, ifi := range ifs {
+		if ifi.Flags&net.FlagUp == 0 {
+			continue
+		}
+		as, _ := ifi.Addrs()
+		for _, a := range as {
+			if n, ok := a.(*net.IPNet); ok && n.IP.To4() == nil && n.IP.IsLinkLocalUnicast() {
+				return n.IP.String() + "%" + ifi.Name, true
+			}
+		}
+	}
+	return "", false
+}
 
 func countFds() int {
 	n := 0
@@ -227,10 +245,20 @@ func runClientLife(ws []string) string {
 		go p.serveUDP()
 	default:
 		l, err := net.Listen("tcp", "127.0.0.1:0")
+		if mode == "zone" { // a link-local IPv6 peer: the addresses of the connections carry a zone
+			if ll, ok := linkLocal(); ok {
+				if l6, err6 := net.Listen("tcp6", "["+ll+"]:0"); err6 == nil {
+					if l != nil {
+						_ = l.Close()
+					}
+					l, err = l6, nil
+				}
+			}
+		}
 		if err != nil {
 			return "result=peer-listen-failed"
 		}
-		p.ln, network, address = l, "tcp", l.Addr().String()
+		p.ln, network, address = l, l.Addr().Network(), l.Addr().String()
 		go p.serve()
 	}
 	s := &server{sc: scenario{source: "client"}, booted: make(chan struct{}), opened: map[string]int{}, closed: map[string]int{}, loopOf: map[string]int64{},
@@ -382,6 +410,32 @@ func runClientLife(ws []string) string {
 		}
 		if n := atomic.LoadInt32(&wcb); n != 1 {
 			util.Fail(fmt.Sprintf("C03: the Wake callback ran %d times", n))
+		}
+	}
+	// C17 / C12: the addresses of a live connection stay what they were while other connections are closed and
+	// pooled memory is handed out again (zone strings must not end up in the byte-slice pool while in use)
+	if mode == "zone" && len(conns) >= 2 {
+		keep := conns[len(conns)-1]
+		wantR, wantL := strings.Clone(keep.c.RemoteAddr().String()), strings.Clone(keep.c.LocalAddr().String())
+		first := conns[0]
+		_ = first.c.Close()
+		settle(3*time.Second, func() bool { s.mu.Lock(); defer s.mu.Unlock(); return s.closed[first.k] == 1 })
+		for n := 1; n <= 16; n++ { // whatever size class a zone string would fall into
+			for i := 0; i < 4; i++ {
+				x := byteslice.Get(n)
+				for j := range x {
+					x[j] = '#'
+				}
+			}
+		}
+		if got := keep.c.RemoteAddr().String(); got != wantR {
+			util.Fail(fmt.Sprintf("C17: RemoteAddr of a live connection changed from %s to %s after another connection was closed and pooled memory was reused", wantR, got))
+		}
+		if got := keep.c.LocalAddr().String(); got != wantL {
+			util.Fail(fmt.Sprintf("C17: LocalAddr of a live connection changed from %s to %s after another connection was closed and pooled memory was reused", wantL, got))
+		}
+		if r, err := net.ResolveTCPAddr(network, address); err == nil && network != "unix" && network != "udp" && r.String() != address {
+			util.Fail(fmt.Sprintf("C12: memory of package net was handed out by the byte-slice pool: %s now resolves to %s", address, r))
 		}
 	}
 	// some connections end before the shutdown
